@@ -37,7 +37,7 @@ type M = map[string]any
 
 type program struct {
 	ID    string
-	Group string // hostile, corpus, sweep, fixture
+	Group string // hostile, corpus, sweep, fixture, skipped
 	Spec  []byte
 	Opts  func() gen.Options
 	Attrs map[string]string
@@ -282,6 +282,77 @@ func programs(r *vf.Run) []program {
 		for _, ce := range []string{"on", "off"} {
 			ps = append(ps, program{ID: "f_" + n + "_" + ce, Group: "fixture", Spec: []byte(fixtures[n]), Opts: featureOpts(hostileFeatures, ce),
 				Attrs: map[string]string{"fixture": n, "convenient_errors": ce}, Desc: M{"fixture": n, "convenient_errors": ce}})
+		}
+	}
+	// ----- (E) operations skipped as not implemented, next to healthy operations that share every
+	// kind of component with them: skipping an operation must leave no trace in what is generated
+	// for the others (a seeded reordering left a cached security entry without its type)
+	uniq := M{"type": "array", "uniqueItems": true, "items": M{"type": "object", "properties": M{"a": M{"type": "string"}}}}
+	poisons := []struct {
+		name string
+		at   string // body, response, path, query, header, resp-header, form
+		s    M
+	}{
+		{"complex uniqueItems in the request body", "body", uniq},
+		{"complex uniqueItems in the response", "response", uniq},
+		{"complex uniqueItems in a response header", "resp-header", uniq},
+		{"sum type as required path parameter", "path", M{"oneOf": []any{M{"type": "string"}, M{"type": "integer"}}}},
+		{"any type as query parameter", "query", M{}},
+		{"complex anyOf in the request body", "body", M{"anyOf": []any{M{"type": "object", "properties": M{"a": M{"type": "string"}}}, M{"type": "object", "properties": M{"a": M{"type": "integer"}}}}}},
+		{"allOf enum merging in the response", "response", M{"allOf": []any{M{"type": "string", "enum": []any{"a", "b"}}, M{"type": "string", "enum": []any{"b", "c"}}}}},
+		{"non-primitive enum as header parameter", "header", M{"type": "array", "items": M{"type": "string"}, "enum": []any{[]any{"a"}}}},
+		{"complex form schema", "form", M{"type": "object", "properties": M{"o": M{"type": "object", "properties": M{"deep": M{"type": "object", "properties": M{"x": M{"type": "array", "items": M{"type": "object"}}}}}}}}},
+		{"object default", "body", M{"type": "object", "properties": M{"a": M{"type": "object", "properties": M{"b": M{"type": "string"}}, "default": M{"b": "x"}}}}},
+	}
+	ref := func(p string) M { return M{"$ref": p} }
+	for pi, po := range poisons {
+		for li, layout := range [][]bool{{true, false}, {false, true}, {false, true, false}, {true, false, true}} {
+			paths := M{}
+			for oi, bad := range layout {
+				o := M{"operationId": fmt.Sprintf("op%d", oi),
+					"security":    []any{M{"K": []any{}}, M{"B": []any{}, "T": []any{}}, M{"O": []any{"read"}}},
+					"parameters":  []any{ref("#/components/parameters/P")},
+					"requestBody": ref("#/components/requestBodies/RB"),
+					"responses":   M{"200": ref("#/components/responses/R"), "default": ref("#/components/responses/E")}}
+				path := fmt.Sprintf("/p%d", oi)
+				if bad {
+					switch po.at {
+					case "body":
+						o["requestBody"] = M{"required": true, "content": M{"application/json": M{"schema": po.s}}}
+					case "form":
+						o["requestBody"] = M{"required": true, "content": M{"application/x-www-form-urlencoded": M{"schema": po.s}}}
+					case "response":
+						o["responses"] = M{"200": M{"description": "ok", "headers": M{"X-H": ref("#/components/headers/H")}, "content": M{"application/json": M{"schema": po.s}}}, "default": ref("#/components/responses/E")}
+					case "resp-header":
+						o["responses"] = M{"200": M{"description": "ok", "headers": M{"X-H": ref("#/components/headers/H"), "X-Bad": M{"schema": po.s}}, "content": M{"application/json": M{"schema": ref("#/components/schemas/S")}}}, "default": ref("#/components/responses/E")}
+					case "path":
+						path += "/{id}"
+						o["parameters"] = []any{ref("#/components/parameters/P"), M{"name": "id", "in": "path", "required": true, "schema": po.s}}
+					default:
+						o["parameters"] = []any{ref("#/components/parameters/P"), M{"name": "bad", "in": po.at, "required": true, "schema": po.s}}
+					}
+				}
+				paths[path] = M{"post": o}
+			}
+			spec := M{"openapi": "3.0.3", "info": M{"title": "t", "version": "1"}, "paths": paths, "components": M{
+				"securitySchemes": M{"K": M{"type": "apiKey", "in": "header", "name": "X-K"}, "B": M{"type": "http", "scheme": "basic"}, "T": M{"type": "http", "scheme": "bearer"},
+					"O": M{"type": "oauth2", "flows": M{"clientCredentials": M{"tokenUrl": "https://x/t", "scopes": M{"read": "r", "write": "w"}}}}},
+				"schemas":       M{"S": M{"type": "object", "required": []any{"a"}, "properties": M{"a": M{"type": "string", "minLength": 1}, "n": ref("#/components/schemas/N")}}, "N": M{"type": "integer", "minimum": 0}, "Err": M{"type": "object", "properties": M{"m": M{"type": "string"}}}},
+				"parameters":    M{"P": M{"name": "q", "in": "query", "schema": ref("#/components/schemas/N")}},
+				"headers":       M{"H": M{"schema": M{"type": "string"}}},
+				"requestBodies": M{"RB": M{"required": true, "content": M{"application/json": M{"schema": ref("#/components/schemas/S")}}}},
+				"responses": M{"R": M{"description": "ok", "headers": M{"X-H": ref("#/components/headers/H")}, "content": M{"application/json": M{"schema": ref("#/components/schemas/S")}}},
+					"E": M{"description": "e", "content": M{"application/json": M{"schema": ref("#/components/schemas/Err")}}}}}}
+			data, _ := json.Marshal(spec)
+			for _, ce := range []string{"on", "off"} {
+				ps = append(ps, program{ID: fmt.Sprintf("k_%02d_%d_%s", pi, li, ce), Group: "skipped", Spec: data,
+					Attrs: map[string]string{"not_implemented": po.name, "layout": fmt.Sprint(layout), "convenient_errors": ce}, Desc: M{"not_implemented": po.name, "skipped_operations": layout, "convenient_errors": ce},
+					Opts: func() gen.Options {
+						o := featureOpts(hostileFeatures, ce)()
+						o.Generator.IgnoreNotImplemented = []string{"all"}
+						return o
+					}})
+			}
 		}
 	}
 	return ps
